@@ -244,6 +244,30 @@ def gen_cases(rng, tier):
                 out.append(("repeat core", X.let(p, tg, body)))
                 out.append(("repeat core", X.condpat(tg, [(p, body), (X.pwild(), N(0))])))
                 out.append(("repeat core", X.call(X.fn(p, body), tg)))
+    # enumerated core: the _ arm first / in the middle of a cond (a later arm that also matches must not win), and
+    # fallback items whose component is present with a falsy or a truthy value, or absent
+    FALSY = [N(0), X.set_([]), X.arr([]), X.string(""), X.tup([]), N(5), X.set_([N(1)]), X.string("a")]
+    for i, fv in enumerate(FALSY):
+        tv = X.tup([("a", fv), ("b", N(1))])
+        p1 = X.ptup([("a", X.item(X.pvar("x"), N(42))), ("b", X.item(X.pvar("y")))])
+        p2 = X.ptup([("a", X.item(X.pexpr(N(7)), N(7))), ("b", X.item(X.pwild()))])
+        p3 = X.ptup([("a", X.item(X.pvar("x"), N(1))), ("b", X.item(X.pvar("x")))])
+        body = X.tup([("x", V("x")), ("y", V("y"))])
+        out.append(("fallback core", X.let(p1, tv, body)))
+        out.append(("fallback core", X.let(p1, X.tup([("b", N(1))]), body)))
+        out.append(("fallback core", X.condpat(tv, [(p2, N(1)), (X.pwild(), N(2))])))
+        out.append(("fallback core", X.condpat(tv, [(p3, V("x")), (X.pwild(), X.string("no"))])))
+        out.append(("fallback core", X.call(X.fn(p1, body), tv)))
+        out.append(("fallback core", X.let(X.parr([X.item(X.pvar("x")), X.item(X.pvar("y"), N(9))]), X.arr([N(1), fv]), body)))
+        out.append(("fallback core", X.let(X.pdict([(X.string("a"), X.item(X.pvar("x"), N(42)))]), X.dict_([(X.string("a"), fv)]), V("x"))))
+        out.append(("fallback core", X.let(X.parr([X.item(X.ptup([("a", X.item(X.pvar("x"), N(42)))]))]), X.arr([X.tup([("a", fv)])]), V("x"))))
+        # cond with _ before other arms
+        ctl = X.tup([("a", fv), ("b", N(2))])
+        pa = X.ptup([("a", X.item(X.pvar("x"))), ("", X.extra(None))])
+        out.append(("cond default core", X.condpat(ctl, [(X.pwild(), X.string("first")), (pa, V("x"))])))
+        out.append(("cond default core", X.condpat(ctl, [(X.pexpr(N(99)), N(0)), (X.pwild(), X.string("mid")), (pa, V("x"))])))
+        out.append(("cond default core", X.condpat(fv, [(X.pwild(), X.string("first")), (X.pexpr(fv), X.string("second"))])))
+        out.append(("cond default core", X.condpat(fv, [(X.pvar("z"), X.tup([("z", V("z"))])), (X.pwild(), N(0)), (X.pexpr(fv), N(1))])))
     # committed probes
     out += [("probe", X.let(X.parr([X.item(X.pvar("x")), X.item(X.pvar("x"))]), X.arr([N(1), X.string("1")]), X.var("x"))),
             ("probe", X.let(X.parr([X.item(X.pvar("a")), X.item(X.pvar("b"))]), X.arr([N(1), N(2)], 1), X.var("a"))),
@@ -269,7 +293,7 @@ def main(tier, seed, replay=None):
         if (outs.get(c["id"]) or {}).get("st") == "ok":
             nmatch += 1
     evalcheck.stats(run, cases, outs, codes,
-                    "random nested values (arrays, tuples, dicts, sets, numbers, strings) and patterns derived from them (names incl. repeated ones, _, literal and (expr) patterns, nested array/tuple/dict/set patterns (set patterns: literals with ...rest, literals with one name and exactly one / two or more members left over, literals only), ...rest at any position, trailing fallbacks) an enumerated core of names repeated across nesting levels and as the ...rest of a tuple or array (agreeing and disagreeing values, six name pairs, let / cond / parameter), an enumerated core of [p1..pk, ...r, q1..qm] (k, m <= 2) against arrays of every length from two short to longer; matched against the value itself or a near-miss of it (one extra / missing element, offset, hole, one component changed, wrong kind) in `let P = V; (names)`, `(\\\\P body)(V)` and `cond V {P1:.., P2:.., _:0}`",
+                    "random nested values (arrays, tuples, dicts, sets, numbers, strings) and patterns derived from them (names incl. repeated ones, _, literal and (expr) patterns, nested array/tuple/dict/set patterns (set patterns: literals with ...rest, literals with one name and exactly one / two or more members left over, literals only), ...rest at any position, trailing fallbacks) enumerated cores of cond with the _ arm first or in the middle followed by arms that also match, of fallback items whose component is present with a falsy value / present with a truthy value / absent (tuple, array, dict, nested, parameter), of names repeated across nesting levels and as the ...rest of a tuple or array (agreeing and disagreeing values, six name pairs, let / cond / parameter), an enumerated core of [p1..pk, ...r, q1..qm] (k, m <= 2) against arrays of every length from two short to longer; matched against the value itself or a near-miss of it (one extra / missing element, offset, hole, one component changed, wrong kind) in `let P = V; (names)`, `(\\\\P body)(V)` and `cond V {P1:.., P2:.., _:0}`",
                     {"form_histogram": kinds, "programs_that_matched": nmatch, "exhaustive": False})
     run.assumptions = ["patterns with more than one of (...rest | fallback) per level are rejected by the implementation as 'non-deterministic' and are not generated"]
     return run.finish(proof)
